@@ -48,7 +48,11 @@ func (a *Act) havocCall(in ssa.Value, instr ssa.Instruction, st *State, reach st
 		}
 		ns := g.freshState(a.nm("aftercall"))
 		g.assumeIf(reach, fmt.Sprintf("(>= %s %s)", ns.Next, st.Next))
+		escOld := g.escNow(st)
 		*st = *ns
+		if g.trackEsc {
+			g.assumeIf(reach, fmt.Sprintf("(>= %s %s)", g.escNow(st), escOld))
+		}
 	} else {
 		g.note("havoc-result call (%s) in %s", why, shortFn(a.fn))
 		// may allocate: results may be fresh
@@ -59,6 +63,7 @@ func (a *Act) havocCall(in ssa.Value, instr ssa.Instruction, st *State, reach st
 		for _, k := range heapKinds {
 			st.H[k] = g.framedHeap(a.nm("aftercall"), k, old.H[k], old.Next, nil, true)
 		}
+		g.escHavoc(st, reach)
 	}
 	if in == nil {
 		return
@@ -133,7 +138,7 @@ func (a *Act) doCall(res ssa.Value, instr ssa.Instruction, c *ssa.CallCommon, re
 		a.staticCall(res, instr, f, args, st, reach)
 		return
 	}
-	if g.topCt != nil && g.topCt.Inlines != nil && a.dynDispatch(res, instr, c, recv, args, st, reach) {
+	if g.inPlace() && a.dynDispatch(res, instr, c, recv, args, st, reach) {
 		return
 	}
 	a.unknownFnCall(res, instr, c, recv, args, st, reach)
@@ -145,7 +150,7 @@ func (a *Act) unknownFnCall(res ssa.Value, instr ssa.Instruction, c *ssa.CallCom
 	eng := a.g.eng
 	// the contract of a function type is a model of caller-supplied values used by proofs that execute callee bodies in
 	// place (clause "inlines"); elsewhere a call through an unknown function value stays a sound havoc
-	if fp := eng.fnTypeContract(c.Value.Type()); fp != nil && a.g.topCt != nil && a.g.topCt.Inlines != nil {
+	if fp := eng.fnTypeContract(c.Value.Type()); fp != nil && a.g.inPlace() {
 		a.callByContract(res, instr, nil, fp, append([]string{recv}, args...), st, reach)
 		return
 	}
@@ -167,7 +172,32 @@ func (a *Act) dynDispatch(res ssa.Value, instr ssa.Instruction, c *ssa.CallCommo
 			names = append(names, n)
 		}
 	}
+	// top-level functions used as values in this proof context (e.g. WithRapidCommit put into a modifier list)
+	var fnames []string
+	for n, f := range g.fnValues {
+		if f.Signature.Recv() == nil && f.Signature.Params().Len() == sig.Params().Len() && types.Identical(types.NewSignatureType(nil, nil, nil, f.Signature.Params(), f.Signature.Results(), false), types.NewSignatureType(nil, nil, nil, sig.Params(), sig.Results(), false)) {
+			fnames = append(fnames, n)
+		}
+	}
+	sort.Strings(fnames)
+	for _, n := range fnames {
+		if g.provable(reach, fmt.Sprintf("(= %s %s)", recv, n)) {
+			g.note("call through a function value resolved to %s (solver-aided)", shortFn(g.fnValues[n]))
+			a.staticCall(res, instr, g.fnValues[n], args, st, reach)
+			return true
+		}
+	}
 	if len(names) == 0 {
+		if len(fnames) > 0 {
+			var neq []string
+			for _, n := range fnames {
+				neq = append(neq, fmt.Sprintf("(not (= %s %s))", recv, n))
+			}
+			if g.provable(reach, "(and "+strings.Join(neq, " ")+")") {
+				a.unknownFnCall(res, instr, c, recv, args, st, reach)
+				return true
+			}
+		}
 		return false
 	}
 	sort.Slice(names, func(i, j int) bool {
@@ -208,6 +238,9 @@ func (a *Act) dynDispatch(res ssa.Value, instr ssa.Instruction, c *ssa.CallCommo
 			if i == 0 {
 				var neq []string
 				for _, m := range names {
+					neq = append(neq, fmt.Sprintf("(not (= %s %s))", recv, m))
+				}
+				for _, m := range fnames {
 					neq = append(neq, fmt.Sprintf("(not (= %s %s))", recv, m))
 				}
 				if g.provable(reach, "(and "+strings.Join(neq, " ")+")") {
@@ -259,6 +292,12 @@ func (a *Act) dynDispatch(res ssa.Value, instr ssa.Instruction, c *ssa.CallCommo
 		cond := g.def(a.nm("dyn"), "Bool", fmt.Sprintf("(and %s (= %s %s))", reach, recv, n))
 		neq = append(neq, fmt.Sprintf("(not (= %s %s))", recv, n))
 		run(cond, func(sub *State) { a.closureCall(res, instr, ci, args, sub, cond) })
+	}
+	for _, n := range fnames {
+		f := g.fnValues[n]
+		cond := g.def(a.nm("dyn"), "Bool", fmt.Sprintf("(and %s (= %s %s))", reach, recv, n))
+		neq = append(neq, fmt.Sprintf("(not (= %s %s))", recv, n))
+		run(cond, func(sub *State) { a.staticCall(res, instr, f, args, sub, cond) })
 	}
 	other := g.def(a.nm("dyn_other"), "Bool", fmt.Sprintf("(and %s %s)", reach, strings.Join(neq, " ")))
 	run(other, func(sub *State) { a.unknownFnCall(res, instr, c, recv, args, sub, other) })
@@ -520,6 +559,9 @@ func (a *Act) callByContract(res ssa.Value, instr ssa.Instruction, fn *ssa.Funct
 	var named []string
 	for _, m := range modRefs {
 		named = append(named, g.def(a.nm("mod"), "Int", m))
+		if g.trackEsc {
+			g.assumeIf(reach, fmt.Sprintf("(not (= %s %s))", named[len(named)-1], ghostEscRef))
+		}
 	}
 	post := &State{H: map[string]string{}}
 	if ct.ModifiesAll {
@@ -574,6 +616,13 @@ func (a *Act) callByContract(res ssa.Value, instr ssa.Instruction, fn *ssa.Funct
 		}
 	}
 	*st = *post
+	if g.trackEsc && !ct.NoAlloc {
+		if ct.ModifiesAll {
+			g.assumeIf(reach, fmt.Sprintf("(>= %s %s)", g.escNow(st), g.escNow(cs.pre)))
+		} else {
+			g.escHavoc(st, reach)
+		}
+	}
 	cs.post = st
 	// results
 	var rs []string
@@ -597,6 +646,24 @@ func (a *Act) callByContract(res ssa.Value, instr ssa.Instruction, fn *ssa.Funct
 		}
 	}
 	cs.res = rs
+	if ct.NoAllocWhen != nil && !ct.ModifiesAll {
+		// conditional noalloc: on those returns the caller's heap is the one before the call (apart from the modifies set)
+		for _, c := range cs.evalClause(ct.NoAllocWhen, st, cs.pre) {
+			var eqs []string
+			eqs = append(eqs, fmt.Sprintf("(= %s %s)", st.Next, cs.pre.Next))
+			if g.trackEsc {
+				eqs = append(eqs, fmt.Sprintf("(= %s %s)", g.escNow(st), g.escNow(cs.pre)))
+			}
+			if ct.ModifiesNothing() {
+				for _, k := range heapKinds {
+					if st.H[k] != cs.pre.H[k] {
+						eqs = append(eqs, fmt.Sprintf("(= %s %s)", st.H[k], cs.pre.H[k]))
+					}
+				}
+			}
+			g.assumeIf(reach, fmt.Sprintf("(=> %s (and %s))", c, strings.Join(eqs, " ")))
+		}
+	}
 	for _, cl := range ct.Ensures {
 		if strings.HasPrefix(cl.Label, "local-") {
 			// proved at the function's returns, not handed to callers (quantifier shapes that would loop with the
@@ -659,10 +726,20 @@ func (a *Act) invoke(res ssa.Value, instr ssa.Instruction, c *ssa.CallCommon, re
 			post.H[k] = g.framedHeapK(a.nm("after_decode"), k, st.H[k], st.Next, []string{named}, nil, true)
 		}
 		*st = *post
+		g.escHavoc(st, reach)
 		if res != nil {
 			a.havocValue(res, reach, st)
 		}
 		return
+	}
+	// every implementation is a trivial getter (returns a constant or a field): closed-world case analysis on the dynamic
+	// type, whatever the number of implementations (A4)
+	if res != nil && len(args) == 0 {
+		if t, tags, ok := eng.ifaceGetter(g, a, it, c.Method, recv, st); ok {
+			g.assumeIf(reach, "(or "+strings.Join(tags, " ")+")")
+			a.bind(res, t)
+			return
+		}
 	}
 	// closed world dispatch when the implementations are few and known
 	if impls := eng.implementations(it, c.Method); len(impls) > 0 && len(impls) <= eng.dispatchLimit && a.depth < g.maxDepth {
